@@ -183,7 +183,7 @@ def c06(sc, tier, seed):
 
 
 def c07(sc, tier, seed):
-    return transition_check(sc, tier, seed, 'C07', ['MC_expiry'], walks=['MC_expiry_walk'], quick_n=25000,
+    return transition_check(sc, tier, seed, 'C07', ['MC_expiry', 'MC_expiry_txn'], walks=['MC_expiry_walk'], quick_n=28000,
                             rule='TLC enumerates MC_expiry: 2 keys, every type in each lifetime phase (no TTL / deadline in the future / deadline passed but object still stored, produced on the real server by PEXPIREAT into the past so that no sleeping is needed) x one instance of every data command per key + the EXPIRE/PEXPIRE/EXPIREAT/PEXPIREAT x NX/XX/GT/LT table + SET/GETEX expiry options; TLC checks ExpiredIsMissing (reply and live successor are unchanged when the stored db is replaced by its live part) on the ideal reading; every transition is replayed; deadlines are compared exactly for absolute-millisecond commands, within 1 s for whole-second commands and within the elapsed-time window for relative ones.',
                             assumptions=['model clock in ms; model time 1000000 is mapped to the wall-clock second at which a case starts; symbolic @T:/@M: arguments are substituted by real epoch values at replay time',
                                          'TTL/PTTL replies are accepted in the window [expected - elapsed - 1.5 s, expected]'])
@@ -625,7 +625,7 @@ def c13(sc, tier, seed):
         if op.get('hostile'):
             cmdcases.append({'cmd': op['cmd'], 'pre': op['pre'], 'known': op['known']})
         elif 'rawcases' in op:
-            special += [{'raw': r['raw'], 'reply': r['reply'], 'known': r['known']} for r in op['rawcases']]
+            special += [dict({'raw': r['raw'], 'reply': r['reply'], 'known': r['known']}, **({'cut': r['cut'], 'replies': r['replies']} if 'cut' in r else {})) for r in op['rawcases']]
         elif 'specials' in op:
             special += [{'seq': sp['seq'], 'known': sp['known']} for sp in op['specials']]
     if not cmdcases or not special:
